@@ -158,6 +158,36 @@ example : cleanDisabled 1 (fun _ => true) 64 = true ∧ cleanDisabled 1 (fun _ =
 /-- the source sizes that memset by the number of strings -/
 theorem gen_clean_sized_by_strings : cleanDisabledSizedBy = "num_strings" := by decide
 
+/-- **Configuration values survive the set/get round trip**: for a key whose setter and getter use the union member and
+    pointer type of the key's own width (32 or 64 bits), every value of that type is read back unchanged, whatever the slot
+    held before. -/
+theorem cfg_round_trip (k : CfgKey) (w : Nat) (hw : w = 32 ∨ w = 64)
+    (hs : k.setMember = w ∧ k.setCast = w ∧ k.getMember = w ∧ k.getCast = w) (old v : Nat) (hv : v < 2 ^ w) :
+    cfgRoundTrip k old v = v := by
+  obtain ⟨h1, h2, h3, h4⟩ := hs
+  unfold cfgRoundTrip cfgRead cfgWrite
+  rw [h1, h2, h3, h4]
+  rcases hw with rfl | rfl
+  · simp only [show ¬ (32 ≥ 64) by omega, ↓reduceIte]
+    have e : (2 : Nat) ^ 32 = 4294967296 := by decide
+    rw [e] at hv ⊢
+    omega
+  · simp only [show (64 ≥ 64) by omega, ↓reduceIte]
+    have e : (2 : Nat) ^ 64 = 18446744073709551616 := by decide
+    rw [e] at hv ⊢
+    omega
+
+/-- **Every configuration key of libyara.c is accessed with its own width** (switches of yr_set_configuration /
+    yr_get_configuration and the typed wrappers, regenerated from the source): with `cfg_round_trip`,
+    `get (set k v) = v` for every key and every value of the key's type. -/
+theorem gen_cfg_keys_sound : cfgKeys ≠ [] ∧ ∀ k ∈ cfgKeys, (cfgWidth k = 32 ∨ cfgWidth k = 64) ∧ k.typedGet = cfgWidth k ∧
+    k.setMember = cfgWidth k ∧ k.setCast = cfgWidth k ∧ k.getMember = cfgWidth k ∧ k.getCast = cfgWidth k := by decide
+
+/-- reading a 64-bit key through the 32-bit member returns the value modulo 2^32 (4 GiB + 4 KiB becomes 4 KiB, 4 GiB becomes 0) -/
+example : cfgRoundTrip ⟨"k", 3, 64, 64, 32, 64, 64, 64⟩ 0 (4294967296 + 4096) = 4096 ∧
+          cfgRoundTrip ⟨"k", 3, 64, 64, 32, 64, 64, 64⟩ 0 4294967296 = 0 ∧
+          cfgRoundTrip ⟨"k", 3, 64, 64, 64, 64, 64, 64⟩ 7 (4294967296 + 4096) = 4294967296 + 4096 := by decide
+
 variable {G : Guards} (hG : G.Sound)
 include hG
 set_option linter.unusedSectionVars false
